@@ -136,7 +136,7 @@ func cmdCheck(args []string) {
 	defer solv.Close()
 
 	keys := P.keysForProperty(*prop)
-	results := P.VerifyAll(keys, VerifyOpts{MaxRank: maxRank}, solv)
+	results := P.VerifyAll(keys, VerifyOpts{MaxRank: maxRank, Thorough: *tier == "thorough"}, solv)
 	lemmaRes := P.VerifyLemmas(*prop, maxRank, solv)
 
 	// aggregate
@@ -161,7 +161,7 @@ func cmdCheck(args []string) {
 			fu["schema"] = r.Schema
 		}
 		if r.Mode == "rank" {
-			fu["ranks"] = fmt.Sprintf("0..%d", maxRank)
+			fu["ranks"] = fmt.Sprintf("0..%d", r.MaxRank)
 		}
 		if len(r.Used) > 0 {
 			fu["callee_contracts"] = r.Used
